@@ -225,9 +225,13 @@ def run(ctx, R, tier):
     # ---------------------------------------------------------------- R4 server
     h = ctx.fn("Pyro5.server.Daemon.handleRequest")
     hcfg = ctx.cfg(h)
+    from ..engine.context import locals_assigned
+    srv_flagvars = set(locals_assigned(h, lambda v: isinstance(v, ast.Attribute) and v.attr == "flags"))
+    if not srv_flagvars:
+        raise AnalysisError("handleRequest: no local holds the request's flags (`x = msg.flags`)")
 
     def srv_oneway_false(atom, pol):
-        return pol is False and flag_fact(ctx, h, atom, ONEWAY, {"request_flags"})
+        return pol is False and flag_fact(ctx, h, atom, ONEWAY, srv_flagvars)
 
     def ping_true(atom, pol):
         if pol is True and isinstance(atom, ast.Compare) and len(atom.ops) == 1 and isinstance(atom.ops[0], ast.Eq):
